@@ -139,16 +139,14 @@ impl RollingChecksum {
         let old = u32::from(old_byte);
         let new = u32::from(new_byte);
 
-        // Update a: remove old, add new
-        self.a = (self.a.wrapping_sub(old).wrapping_add(new)) % Self::MOD;
+        // Update a: remove old, add new. MOD is added before subtracting so the
+        // difference never wraps below zero (a 2^32 wrap is not a multiple of MOD).
+        self.a = (self.a + Self::MOD - old + new) % Self::MOD;
 
-        // Update b: remove old's contribution (it was weighted by count), add new a
-        // Truncation is intentional: checksum uses 32-bit arithmetic
-        self.b = (self
-            .b
-            .wrapping_sub(self.count as u32 * old)
-            .wrapping_add(self.a))
-            % Self::MOD;
+        // Update b: remove old's contribution (it was weighted by count), add new a.
+        // The contribution is reduced first so that `b + MOD - removed` stays non-negative.
+        let removed = (self.count as u32 * old) % Self::MOD;
+        self.b = (self.b + Self::MOD - removed + self.a) % Self::MOD;
 
         debug_assert!(self.a < Self::MOD, "a must be < MOD after roll");
         debug_assert!(self.b < Self::MOD, "b must be < MOD after roll");
